@@ -17,7 +17,8 @@ Python programs, so a verdict on the canonical form is a verdict on the program 
          enclosing the read may be evaluated earlier (an expression cannot rebind a local name; that it does not replace a
          METHOD of an object between the two statements is the one assumption made).
 
-Positions of the original nodes are kept, so reports still name the line the construct was written on.
+Positions of the original nodes are kept (a moved expression takes the position of the name it replaces), so reports still
+name the line the construct was written on and rules that order events by position see the order of evaluation.
 """
 
 from __future__ import annotations
@@ -213,6 +214,9 @@ def _canon_function(fn):
                     if facts.plain_local(t) and facts.stores.get(t, 0) == 1 and facts.loads.get(t, 0) == 1 and not any(isinstance(n, (ast.Yield, ast.YieldFrom, ast.Await, ast.NamedExpr)) for n in ast.walk(st.value)):
                         use = _read_site_ok(nxt, t)
                         if use is not None:
+                            for n_ in ast.walk(st.value):  # the moved expression now sits where the name was read
+                                if hasattr(n_, "lineno"):
+                                    n_.lineno, n_.col_offset, n_.end_lineno, n_.end_col_offset = use.lineno, use.col_offset, use.lineno, use.col_offset
                             body[i + 1] = _Replace(use, st.value).visit(nxt)
                             del body[i]
                             changed = True
